@@ -2447,6 +2447,18 @@ def gen_area(repo, spec, common, cenv):
     lines += ["set_option linter.unusedVariables false", "namespace Zc.GenFn.%s" % spec.AREA, "open Zc Zc.Py", ""]
     if getattr(spec, "PRELUDE_LEAN", None):
         lines += [spec.PRELUDE_LEAN.strip("\n"), ""]
+    # facts about the rest of the library that the spec types assert (tools/fn_pins.py): fail closed
+    import fn_pins
+
+    try:
+        fn_pins.check_spec(repo, spec)
+        used = {o for o in common.OPAQUE if o in repr(spec.CLASSES) + repr(getattr(spec, "FUNCTIONS", [])) + repr(getattr(spec, "PYTYPES", {}))}
+        used |= {common.PYTYPES[k] for k in common.PYTYPES if k in repr(spec.CLASSES) + repr(getattr(spec, "FUNCTIONS", []))}
+        fn_pins.check_truthy(repo, common, used)
+    except fn_pins.PinFail as ex:
+        raise Fail("source pin of the %s spec: %s" % (spec.AREA, ex), file=rel)
+    if getattr(spec, "SOURCE_PINS_DOC", None):
+        lines += ["/-! SOURCE PINS (tools/fn_pins.py, checked at stage T on every run; a violated pin fails this area):", spec.SOURCE_PINS_DOC.strip("\n"), "-/", ""]
     # helper functions of other modules whose definition the translation relies on (e.g. millis_to_seconds(x) = x / 1000.0)
     for pin in getattr(spec, "PINS", []):
         try:
